@@ -5,12 +5,14 @@ ZSTD_compressLiterals around the output of HUF_compress1X_repeat / HUF_compress4
 HUF_writeCTable_wksp, then one or four streams written by HUF_compress1X_usingCTable / HUF_compress4X_usingCTable).
 
 What is NOT modelled: the compressor's DECISIONS (ZSTD_minLiteralsToCompress, ZSTD_minGain, which code lengths, whether the previous
-table is reused, whether HUF_compressWeights makes the tree description smaller than the direct form).  The functions below say
+table is reused (when it is: `treelessLiterals`, `hType = set_repeat`), the normalised counts HUF_compressWeights works with).  The functions below say
 which bytes are emitted once those decisions are taken; `Block.decodeLiterals` reads them back (Lemmas/LitRT.lean).
 Core imports only.
 -/
 import ZstdVerif.Model.BitW
 import ZstdVerif.Model.HufEnc
+import ZstdVerif.Model.FSEEnc
+import ZstdVerif.Model.NCountW
 namespace ZstdVerif.LitEnc
 
 /-- MEM_writeLE16 / MEM_writeLE24 / MEM_writeLE32 (mem.h) seen from the output: the `k` low bytes of `v`, least significant first.
@@ -75,10 +77,36 @@ def packNibbles : List Nat → List UInt8
 `0 .. maxSymbolValue-1` (the weight of the last symbol is implied); `op[0] = (BYTE)(128 + (maxSymbolValue-1))`, then the packed
 nibbles, `((maxSymbolValue+1)/2) + 1` bytes in all; `none` = `ERROR(GENERIC)` for `maxSymbolValue > 128`.
 The C function first tries HUF_compressWeights and prefers its output when that is more than 1 and less than `maxSymbolValue/2`
-bytes: that FSE-compressed form is NOT produced here (`Block.decodeLiterals` reads it, via `FSE.decompressWeights`). -/
+bytes: that FSE-compressed form is `fseWeights` above (`Block.decodeLiterals` reads it, via `FSE.decompressWeights`); the literals
+writer `hufLiterals` below uses the direct form only. -/
 def directWeights (huffWeight : List Nat) : Option ByteArray :=
   if huffWeight.length > 128 then none
   else some ((ByteArray.empty.push (UInt8.ofNat (128 + huffWeight.length - 1))) ++ (packNibbles huffWeight).toByteArray)
+
+/-- HUF_compressWeights (huf_compress.c): the weights `weightTable` (symbols 0 .. maxSymbolValue-1 of the Huffman alphabet; each
+≤ HUF_TABLELOG_MAX) FSE-compressed: FSE_writeNCount of the normalised counts, then FSE_compress_usingCTable under the table built from
+them.  The normalised counts `norm` (one per weight value up to the largest one present) and `tableLog` (≤ 6 =
+MAX_FSE_TABLELOG_FOR_HUFF_HEADER) are a DECISION handed to the model: FSE_optimalTableLog / FSE_normalizeCount are heuristics, not
+modelled (as for the sequence tables, Model/BlockEnc.lean).  `none` = the C function returns 0 or 1, "not compressible" / "rle", which the
+caller does not use: `wtSize <= 1`; `maxCount == wtSize` (one weight value only); `maxCount == 1` (every value at most once);
+FSE_compress_usingCTable returned 0 (`wtSize <= 2`). -/
+def compressWeights (norm : Array Int) (tableLog : Nat) (weightTable : List Nat) : Option ByteArray :=
+  if weightTable.length ≤ 1 then none else
+  let maxCount := ((List.range (Gen.HUF_TABLELOG_MAX + 1)).map (fun w => weightTable.count w)).foldl max 0
+  if maxCount = weightTable.length then none else
+  if maxCount = 1 then none else
+  match FSE.compressFields (FSE.buildCTable norm tableLog) weightTable with
+  | some fields => some (NCountW.writeNCount norm tableLog ++ BitW.ofFields fields)
+  | none => none
+
+/-- HUF_writeCTable_wksp (huf_compress.c), the FSE-COMPRESSED form, tried first: `hSize = HUF_compressWeights(op+1, ..., huffWeight,
+maxSymbolValue)`; `if ((hSize>1) & (hSize < maxSymbolValue/2)) { op[0] = (BYTE)hSize; return hSize+1; }`.  `none` = the condition fails:
+the C function goes on to the direct form (`directWeights`). -/
+def fseWeights (norm : Array Int) (tableLog : Nat) (huffWeight : List Nat) : Option ByteArray :=
+  match compressWeights norm tableLog huffWeight with
+  | some h =>
+    if h.size > 1 ∧ h.size < huffWeight.length / 2 then some ((ByteArray.empty.push (UInt8.ofNat h.size)) ++ h) else none
+  | none => none
 
 /-- HUF_compress1X_usingCTable / HUF_compress4X_usingCTable (huf_compress.c) with the byte-level bit writer: the stream(s) of the
 literals `lits` under the code table `codes`; `none` = the C function returns 0 -/
@@ -94,5 +122,33 @@ def hufLiterals (weights : Array Nat) (tableLog : Nat) (lits : List Nat) : Optio
   match directWeights weights.toList.dropLast, hufStreams single (HufEnc.codesOf weights tableLog) lits with
   | some hdr, some streams => some (compressedLiterals single hdr streams lits.length)
   | _, _ => none
+
+/-- HUF_writeCTable_wksp as a whole: the FSE-compressed form when HUF_compressWeights pays (`fseWeights`), else the direct form
+(`directWeights`); `norm` / `nlog` = the normalised counts of the weight values handed to HUF_compressWeights (a decision, see there) -/
+def treeDescr (norm : Array Int) (nlog : Nat) (huffWeight : List Nat) : Option ByteArray :=
+  match fseWeights norm nlog huffWeight with
+  | some h => some h
+  | none => directWeights huffWeight
+
+/-- `hufLiterals` with the tree description written by the whole of HUF_writeCTable_wksp (`treeDescr`: FSE-compressed weights when
+that is smaller); with it alphabets beyond symbol 128 can be described -/
+def hufLiteralsFse (weights : Array Nat) (tableLog : Nat) (norm : Array Int) (nlog : Nat) (lits : List Nat) : Option ByteArray :=
+  let single := decide (lits.length < 256)
+  match treeDescr norm nlog weights.toList.dropLast, hufStreams single (HufEnc.codesOf weights tableLog) lits with
+  | some hdr, some streams => some (compressedLiterals single hdr streams lits.length)
+  | _, _ => none
+
+/-- ZSTD_compressLiterals on the path "the table of the previous block is re-used, Huffman output kept" (TREELESS literals):
+HUF_compress{1,4}X_repeat is handed `prevHuf->CTable` with `*repeat = prevHuf->repeatMode != HUF_repeat_none`; HUF_compress_internal
+keeps that table (HUF_validateCTable passed; `HUF_flags_preferRepeat`, or the old table is estimated not larger than a new table plus
+its description) and returns what HUF_compressCTable_internal writes with `oldHufTable`: the stream(s) only, NO tree description;
+`*repeat` stays set, so `hType = set_repeat`.  `weights` / `tableLog` = the table of that previous block (as in `hufLiterals`).
+`singleStream = srcSize < 256`: inside a frame the previous table is in mode HUF_repeat_check; the widening
+`if (repeat == HUF_repeat_valid && lhSize == 3) singleStream = 1` only applies to a dictionary's table. -/
+def treelessLiterals (weights : Array Nat) (tableLog : Nat) (lits : List Nat) : Option ByteArray :=
+  let single := decide (lits.length < 256)
+  match hufStreams single (HufEnc.codesOf weights tableLog) lits with
+  | some streams => some (compressedLiterals single ByteArray.empty streams lits.length set_repeat)
+  | none => none
 
 end ZstdVerif.LitEnc
